@@ -152,6 +152,10 @@ def build_pool(seed, tier):
     for cu in ('en-us', 'es-es', 'fr-fr', 'it-it', 'pt-br', 'nl-nl', 'de-de'):
         for q in HISTORY_DATES:
             pool.append(['datetime', cu, 0, q, '2016-11-07T00:00:00'])
+    # the same absolute date text with and without a modifier in front, under one reference
+    for cu, pairs in MOD_HISTORY.items():
+        for q in pairs:
+            pool.append(['datetime', cu, 0, q, '2016-11-07T00:00:00'])
     seen, out = set(), []
     for t in pool:
         key = json.dumps(t, ensure_ascii=False)
@@ -186,6 +190,10 @@ def helpers():
     return call
 
 
+MOD_HISTORY = {'en-us': ['please pay before 2015-01-05', 'the invoice is dated 2015-01-05', 'since 3/4/2016', 'on 3/4/2016', 'after 12/25/2018', '12/25/2018', 'until 5/6/2017 at 3pm', '5/6/2017 at 3pm'],
+               'es-es': ['antes del 5/1/2015', 'la factura es del 5/1/2015', 'desde el 3/4/2016', 'el 3/4/2016'], 'fr-fr': ['avant le 5/1/2015', 'le 5/1/2015', 'depuis le 3/4/2016', 'le 3/4/2016'],
+               'de-de': ['vor dem 5.1.2015', 'am 5.1.2015', 'seit dem 3.4.2016', 'am 3.4.2016'], 'it-it': ['prima del 5/1/2015', 'il 5/1/2015'], 'pt-br': ['antes de 5/1/2015', 'em 5/1/2015'],
+               'nl-nl': ['voor 5-1-2015', 'op 5-1-2015']}
 HISTORY_DATES = ['25/3', '3/25', '5/3', '7/8', '13/2', '2/13', '12/11', '25-3', '5-3', '3.25', '5.3']
 REF_OBJECTS = {}
 
